@@ -35,6 +35,9 @@ def _opt_int(vc, name, group='cl', serial=False):
     return v
 
 
+_TARGET = None      # set by C17's forwarding harness: the explicitly targeted host handed to _create_response_future
+
+
 class _Obj(object):
     def __init__(self, name):
         self.name = name
@@ -65,7 +68,7 @@ def first_set(a, b):
 def create_future(vc, vary='all', kind=None):
     """Run the real _create_response_future over a symbolic option lattice (the option groups named in `vary` are set/unset
     symbolically, the others are left unset); returns (ResponseFuture kwargs, context) or None."""
-    global _VARY
+    global _VARY, _TARGET
     _VARY = set([vary] if isinstance(vary, str) else vary)
     from cassandra import cluster as C
     from cassandra.query import SimpleStatement, BoundStatement, BatchStatement, PreparedStatement, FETCH_SIZE_UNSET
@@ -133,7 +136,7 @@ def create_future(vc, vary='all', kind=None):
     vc.stub(time.time, lambda: vc.ctx.fresh_real('now', register=False))
     kindr, res = vc.call_catch(SQ, sess, query, None, False, None,
                                _NOT_SET if explicit_timeout is None else explicit_timeout,
-                               execution_profile=EXEC_PROFILE_DEFAULT if legacy else profile)
+                               execution_profile=EXEC_PROFILE_DEFAULT if legacy else profile, host=_TARGET)
     info = dict(pv=pv, legacy=legacy, kind=kind, query=query, is_idempotent=idem, policy_plan=plan, has_spec=(p_spec is not None and not legacy),
                 cl=first_set(s_cl, d_cl if legacy else p_cl), serial_cl=first_set(s_scl, d_scl if legacy else p_scl),
                 retry=first_set(s_retry, d_retry if legacy else p_retry), row_factory=d_rowf if legacy else p_rowf,
